@@ -33,7 +33,11 @@ fn rename(e: &Exp, from: &str, to: &str) -> Exp {
 fn collision_case(r: &mut Rng) -> Case {
     let v = |n: &str| Exp::Variable(n.into());
     let k = |x: f64| Exp::Number(x);
-    let (aux, aux_ty, trigger): (&str, VariableType, Exp) = match r.below(8) {
+    let (aux, aux_ty, trigger): (&str, VariableType, Exp) = match r.below(12) {
+        8 => ("$min_0", VariableType::Real(-3.0, 3.0), Exp::BinOp(BinOp::Add, Box::new(Exp::Min(vec![v("z"), v("y")])), Box::new(k(0.0)))),
+        9 => ("$max_0_select_0", VariableType::Boolean, Exp::BinOp(BinOp::Add, Box::new(Exp::Max(vec![v("z"), v("y")])), Box::new(k(0.0)))),
+        10 => ("$min_0_select_1", VariableType::Boolean, Exp::BinOp(BinOp::Add, Box::new(Exp::Min(vec![v("z"), v("y")])), Box::new(k(0.0)))),
+        11 => ("$and_1", VariableType::Boolean, Exp::BinOp(BinOp::Add, Box::new(Exp::And(vec![v("a"), Exp::And(vec![v("b"), v("a")])])), Box::new(Exp::BinOp(BinOp::Add, Box::new(Exp::And(vec![v("b"), v("a")])), Box::new(v("y")))))),
         0 => ("$or_0", VariableType::Boolean, Exp::BinOp(BinOp::Add, Box::new(Exp::Or(vec![v("a"), v("b")])), Box::new(v("y")))),
         1 => ("$and_0", VariableType::Boolean, Exp::BinOp(BinOp::Add, Box::new(Exp::And(vec![v("a"), v("b")])), Box::new(v("y")))),
         2 => ("$xor_0", VariableType::Boolean, Exp::BinOp(BinOp::Add, Box::new(Exp::Xor(Box::new(v("a")), Box::new(v("b")))), Box::new(v("y")))),
